@@ -93,6 +93,8 @@ def literal_parts(expr, assigns, depth=0, seen=None):
         for v in expr.values:
             if isinstance(v, ast.Constant) and isinstance(v.value, str):
                 lits.append(v.value)
+            elif isinstance(v, ast.FormattedValue):
+                lits += literal_parts(v.value, assigns, depth, seen)
     elif isinstance(expr, ast.BinOp) and isinstance(expr.op, (ast.Add, ast.Mod)):
         lits += literal_parts(expr.left, assigns, depth, seen) + literal_parts(expr.right, assigns, depth, seen)
     elif isinstance(expr, ast.Call):
@@ -464,6 +466,19 @@ def check(eng, rep, prop):
                     break
         if node is None and any(src == key for src in _moved_sources(prog, sites, have)):
             continue
+        if node is None and ent[1] == "template":
+            # the template may have been generalised into a helper that builds the names from a parameter
+            # ("#START" + name + "#"): accept a site of the same module whose literal is a prefix of the listed one and
+            # which passes the same template check (eliminated through substitute() before returning)
+            def _pref(a, b):
+                return len(a) >= 2 and b.startswith(a)
+            twin = next((s2 for s2 in sites if s2.func.module == (fi.module if fi is not None else None) and s2.key() not in T
+                         and any(_pref(lit, key[1]) for lit in s2.literals) and template_ok(prog, s2)[0]), None)
+            if twin is not None:
+                rep.holds("R5", prop + ".R5", twin.func.qname, "template:" + key[1],
+                          "template name now built in %s, still eliminated through substitute()" % twin.func.name,
+                          site=site_of(prog, twin.func, twin.node))
+                continue
         if node is None:
             if ent[1] == "finding":
                 # the reported construct is gone: nothing to report (a repaired tree), and nothing to hold vacuously
@@ -532,7 +547,13 @@ def check(eng, rep, prop):
             continue
         _, cat, role, reason = ent
         if cat == "finding":
-            rep.violation("R5", prop + ".R5", s.func.qname, role, reason, site=site)
+            # a finding keeps its identity when its construct is moved inside the class (extract method): it is reported
+            # under the function it was confirmed in, so that the known finding is recognised and not reported as new
+            fq = s.func.qname
+            if moved:
+                orig = _find_function(prog, moved_from[key][0])
+                fq = orig.qname if orig is not None else fq
+            rep.violation("R5", prop + ".R5", fq, role, reason, site=site)
         elif cat == "closed-world":
             ok, why = closed_world_ok(prog, s)
             if ok:
@@ -753,6 +774,15 @@ def counter_suffix_ok(prog, s: NameSite):
                 blk = b
     if blk is None:
         return False, "cannot locate the renaming statement"
+    # a monotone iterator (`numbers = count()` ... `next(numbers)`) advances by itself at every use
+    for c in ast.walk(s.expr):
+        if isinstance(c, ast.Call) and getattr(c.func, "id", "") == "next" and c.args and isinstance(c.args[0], ast.Name):
+            nm = c.args[0].id
+            makers = [a for a in ast.walk(fn) if isinstance(a, ast.Assign) and any(isinstance(t, ast.Name) and t.id == nm
+                                                                                     for t in a.targets)]
+            if len(makers) == 1 and isinstance(makers[0].value, ast.Call) and \
+                    ast.unparse(makers[0].value.func).split(".")[-1] == "count":
+                return True, ""
     ctr = [x.id for x in ast.walk(s.expr) if isinstance(x, ast.Name) and x.id not in ("str",) and not x.id.isupper()
            and x.id != "variable"]
     for c in ctr:
